@@ -68,7 +68,7 @@ fn defkey(tcx: TyCtxt<'_>, did: DefId) -> String {
     )
 }
 
-fn args_json<'tcx>(args: ty::GenericArgsRef<'tcx>) -> J {
+fn args_json<'tcx>(tcx: TyCtxt<'tcx>, args: ty::GenericArgsRef<'tcx>) -> J {
     J::Arr(
         args.iter()
             .filter_map(|a| {
@@ -83,8 +83,29 @@ fn args_json<'tcx>(args: ty::GenericArgsRef<'tcx>) -> J {
                     }
                     if let ty::Closure(did, _) = inner.kind() {
                         if did.is_local() {
-                            let k = ty::tls::with(|tcx| defkey(tcx, *did)).replace('{', "(").replace('}', ")");
+                            let k = defkey(tcx, *did).replace('{', "(").replace('}', ")");
                             return Some(J::s(format!("{}{{closure@KEY:{}}}", prefix, k)));
+                        }
+                    }
+                    if let ty::FnDef(fdid, fargs) = inner.kind() {
+                        // a function item type: name the function it resolves to (a trait method written `<T as Tr>::m`
+                        // resolves to the impl's method), by definition key when local, by definition path otherwise
+                        let has_param = fargs.iter().any(|x| x.as_type().map(|t| t.has_param()).unwrap_or(false));
+                        if !has_param {
+                            let tag = match Instance::try_resolve(tcx, TypingEnv::fully_monomorphized(), *fdid, fargs) {
+                                Ok(Some(inst)) => {
+                                    let rd = inst.def_id();
+                                    if rd.is_local() {
+                                        Some(format!("#KEY:{}", defkey(tcx, rd)))
+                                    } else {
+                                        Some(format!("#DEF:{}", defpath(tcx, rd)))
+                                    }
+                                }
+                                _ => None,
+                            };
+                            if let Some(tg) = tag {
+                                return Some(J::s(format!("{}{}", tystr(t), tg)));
+                            }
                         }
                     }
                     Some(J::s(tystr(t)))
@@ -308,7 +329,7 @@ impl<'tcx> Cx<'tcx> {
         let tcx = self.tcx;
         let mut o = J::obj();
         o.put("def", J::s(defpath(tcx, did)));
-        o.put("args", args_json(args));
+        o.put("args", args_json(tcx, args));
         o.put("local", J::Bool(did.is_local()));
         let env = TypingEnv::post_analysis(tcx, owner);
         match Instance::try_resolve(tcx, env, did, args) {
@@ -317,7 +338,7 @@ impl<'tcx> Cx<'tcx> {
                 let mut r = J::obj();
                 r.put("def", J::s(defpath(tcx, rdid)));
                 r.put("key", J::s(defkey(tcx, rdid)));
-                r.put("args", args_json(inst.args));
+                r.put("args", args_json(tcx, inst.args));
                 r.put("local", J::Bool(rdid.is_local()));
                 r.put(
                     "shim",
@@ -437,7 +458,7 @@ impl<'tcx> Cx<'tcx> {
                                 "fields",
                                 J::Arr(v.fields.iter().map(|f| J::s(f.name.to_string())).collect()),
                             )
-                            .set("args", args_json(args))
+                            .set("args", args_json(tcx, args))
                     }
                     AggregateKind::Closure(did, _) => J::obj()
                         .set("closure", J::s(defpath(tcx, *did)))
@@ -563,6 +584,14 @@ impl<'tcx> Cx<'tcx> {
             let mut t = J::obj();
             t.put("sp", J::s(span_str(tcx, term.source_info.span)));
             if matches!(term.kind, mir::TerminatorKind::Call { .. }) && term.source_info.span.from_expansion() {
+                // a panic raised by debug_assert!/debug_assert_eq!/debug_assert_ne! (its failure arm)
+                let dbg = term.source_info.span.macro_backtrace().any(|e| match e.kind {
+                    rustc_span::hygiene::ExpnKind::Macro(_, name) => name.as_str().starts_with("debug_assert"),
+                    _ => false,
+                });
+                if dbg {
+                    t.put("dbg", J::Bool(true));
+                }
                 t.put("usp", J::s(user_span_str(tcx, term.source_info.span)));
             }
             t.put("exp", J::Bool(term.source_info.span.from_expansion()));
@@ -686,7 +715,7 @@ impl<'tcx> Cx<'tcx> {
         }
         let mut o = J::obj();
         o.put("def", J::s(defpath(tcx, did)));
-        o.put("args", args_json(inst.args));
+        o.put("args", args_json(tcx, inst.args));
         let is_item = matches!(inst.def, ty::InstanceKind::Item(_));
         o.put("item", J::Bool(is_item));
         let kind = tcx.def_kind(did);
@@ -918,7 +947,7 @@ pub fn collect<'tcx>(tcx: TyCtxt<'tcx>) -> J {
                 key,
                 J::obj()
                     .set("def", J::s(defpath(tcx, inst.def_id())))
-                    .set("args", args_json(inst.args))
+                    .set("args", args_json(tcx, inst.args))
                     .set("generic", J::Bool(true))
                     .set("has_mir", J::Bool(false)),
             );
